@@ -147,7 +147,7 @@ impl Prop {
     /// runs per tier
     pub fn budget(self, tier: Tier) -> u64 {
         let quick = match self {
-            Prop::C13 => 12_000,
+            Prop::C13 => 6_000,
             Prop::C15 => 120_000,
             Prop::C17 => 200_000,
             _ => 400_000,
@@ -255,6 +255,7 @@ fn knobs_for(prop: Prop, sub: u64, tier: Tier, rng: &mut Rng) -> Knobs {
             }
             // the protocol holds for every row that is yielded, also after error items
             k.continue_pct = 15;
+            k.layout_may_miss_read = sub % 9 == 4;
         }
         Prop::C03 => {
             k.n_out = (1, 4);
@@ -301,6 +302,12 @@ fn knobs_for(prop: Prop, sub: u64, tier: Tier, rng: &mut Rng) -> Knobs {
                 k.table.z = 2;
                 k.table.x = 2;
                 k.w_beh_table = 6;
+            }
+            if sub % 8 == 3 {
+                // a driver that deviates from its layout in one call (injected in generate())
+                // and a caller that keeps going: by name, the answer of that call is still
+                // the latest one
+                k.continue_pct = 100;
             }
             if sub % 4 == 1 {
                 // a virtual signal that may fail (Z/X), a caller that keeps going: reads in
@@ -404,6 +411,9 @@ fn knobs_for(prop: Prop, sub: u64, tier: Tier, rng: &mut Rng) -> Knobs {
             }
         }
         Prop::C13 => {
+            k.probe_inputs = true;
+            k.w_in_identity = 6;
+            k.w_leaf_read = 5;
             k.max_rows = 40;
             k.max_steps = 64;
             k.max_depth = 2;
@@ -453,6 +463,7 @@ fn knobs_for(prop: Prop, sub: u64, tier: Tier, rng: &mut Rng) -> Knobs {
                 k.table.x = 1;
             }
             k.swarm(rng);
+            k.layout_may_miss_read = sub % 7 == 1;
             if sub % 4 == 2 {
                 // "whatever the driver returns": errors and layout deviations in the dynamic
                 // runs, a caller that keeps going
@@ -786,7 +797,7 @@ pub fn generate(prop: Prop, run_seed: u64, tier: Tier) -> Case {
         }
     }
 
-    if prop == Prop::C15 && case.continue_after_error && rng.chance(1, 2) {
+    if matches!(prop, Prop::C15 | Prop::C04) && case.continue_after_error && rng.chance(1, 2) {
         let lay = case.duts[0].layout.len();
         if lay >= 1 {
             let at = 1 + rng.below(6);
@@ -1911,9 +1922,149 @@ fn eval_c13(case: &Case) -> Eval {
         if ev.harness_error.is_some() {
             break;
         }
+        // a same-length deviation and a caller that keeps going: no later row may attribute to
+        // a signal (neither in its outputs nor through an expression that reads it) a value
+        // the driver reported for another signal
+        if matches!(f.kind, FaultKind::Swap(..) | FaultKind::Dup(_)) && f.at_call > 0 {
+            let mut c = faulted.clone();
+            c.continue_after_error = true;
+            let out = run_case(&c);
+            ev.runs += 1;
+            ev.ticks += out.ticks;
+            if let Some(h) = harness_panic(&out) {
+                ev.harness_error = Some(h);
+                break;
+            }
+            let it = &out.iters[0];
+            let mut viol = oracle::c04_decode(&c, &out, it).map(|v| Violation {
+                oracle: "C13.nocross",
+                detail: format!(
+                    "after {:?} at call #{} (caller keeps iterating): {}",
+                    f.kind, f.at_call, v.detail
+                ),
+            });
+            if viol.is_none() {
+                for (j, s) in it.steps.iter().enumerate() {
+                    if let Item::Row(row) = &s.item {
+                        if !row.outputs.is_empty() && s.calls.1 > s.calls.0 {
+                            let call = &it.calls[s.calls.1 - 1];
+                            viol = oracle::row_attribution("C13.nocross", &out, row, call, j);
+                            if viol.is_some() {
+                                break;
+                            }
+                        }
+                    }
+                }
+            }
+            if let Some(v) = viol {
+                ev.violation = Some(v);
+                ev.violating_case = Some(c);
+                break;
+            }
+        }
+    }
+    // double faults (two driver errors, a caller that keeps iterating): each error value
+    // reaches the caller as the item of exactly the next() whose call failed, no row in
+    // between is cross-wired, nothing panics
+    if ev.violation.is_none() && ev.harness_error.is_none() && n >= 3 && case.duts[0].faults.is_empty() {
+        let pairs = [(1usize, n - 1), (n / 2, n - 1), (1, n / 2 + 1), (2 % n, (n + 2) / 2 + 1)];
+        for (a, b) in pairs {
+            if a == 0 || a >= b || b >= n {
+                continue;
+            }
+            let mut c = with_fault(&base_case, a as u64, FaultKind::Error, 7001);
+            c.duts[0].faults.push(Fault {
+                at_call: b as u64,
+                kind: FaultKind::Error,
+                id: 7002,
+            });
+            c.continue_after_error = true;
+            if let Some(viol) = c13_double(&c, &mut ev) {
+                ev.violation = Some(viol);
+                ev.violating_case = Some(c);
+                break;
+            }
+            if ev.harness_error.is_some() {
+                break;
+            }
+        }
     }
     ev.nontrivial = ev.extra_nontrivial > 0;
     ev
+}
+
+fn c13_double(faulted: &Case, ev: &mut Eval) -> Option<Violation> {
+    let out = run_case(faulted);
+    ev.runs += 1;
+    ev.ticks += out.ticks;
+    if let Some(h) = harness_panic(&out) {
+        ev.harness_error = Some(h);
+        return None;
+    }
+    if out.load != Load::Ok {
+        return None;
+    }
+    count_faults(faulted, &out, &mut ev.faults);
+    let it = &out.iters[0];
+    let mut fired = false;
+    for f in &faulted.duts[0].faults {
+        let k = f.at_call as usize;
+        if f.kind != FaultKind::Error || it.calls.len() <= k {
+            continue;
+        }
+        if !fired {
+            fired = true;
+            ev.extra_nontrivial += 1;
+        }
+        let win = it.steps.iter().position(|s| s.calls.0 <= k && k < s.calls.1);
+        let item = win.map(|w| &it.steps[w].item);
+        if item != Some(&Item::DriverErr(f.id)) {
+            return Some(Violation {
+                oracle: "C13.passthrough",
+                detail: format!(
+                    "two driver errors, caller keeps iterating: call #{k} failed with driver \
+                     error #{}, but the next() that made the call returned {}",
+                    f.id,
+                    item.map(oracle::brief_item).unwrap_or("nothing".into())
+                ),
+            });
+        }
+    }
+    for (j, s) in it.steps.iter().enumerate() {
+        match &s.item {
+            Item::Row(row) if !row.outputs.is_empty() && s.calls.1 > s.calls.0 => {
+                let c = &it.calls[s.calls.1 - 1];
+                if let Some(viol) = oracle::row_attribution("C13.nocross", &out, row, c, j) {
+                    return Some(viol);
+                }
+            }
+            Item::Panic(p) => {
+                return Some(Violation {
+                    oracle: "C13.panic",
+                    detail: format!("two driver errors, caller keeps iterating: {}", p.show()),
+                })
+            }
+            Item::DriverErr(id) => {
+                // a driver error item that no injected fault accounts for
+                let k = s.calls.0;
+                if !faulted.duts[0]
+                    .faults
+                    .iter()
+                    .any(|f| f.id == *id && f.at_call as usize == k)
+                {
+                    return Some(Violation {
+                        oracle: "C13.passthrough",
+                        detail: format!(
+                            "step {j}: driver error #{id} reported, but the call in this window \
+                             (#{k}) did not fail with it"
+                        ),
+                    });
+                }
+            }
+            _ => {}
+        }
+    }
+    None
 }
 
 // ---------------------------------------------------------------------------------------
